@@ -58,7 +58,11 @@ def walks(run, machine, gen_cfg, n, length, seed):
     ws = tlc.json_lines(res, "WALK")
     if res.rc != 0 or res.errors or not ws:
         raise Machinery("TLC simulation failed rc=%s %s\n%s" % (res.rc, res.errors, res.out[-1500:]))
-    return ws
+    # the simulator evaluates the printing invariant on every candidate successor, so there are more lines than walks
+    import random
+    uniq = list({json.dumps(w, sort_keys=True): w for w in ws}.values())
+    random.Random(seed).shuffle(uniq)
+    return uniq[:n]
 
 
 def check(pid, tier, seed, machine, mc_cfg, gen_cfg, trace_module, adapter, sig, corrupt, tour_cap, n_walks, walk_len,
